@@ -182,25 +182,39 @@ func VerifC12History() {
 	hs := [2]*OnceHandle{NewOnceHandle(), NewOnceHandle()}
 	ctxs := [2]context.Context{InitializeContext(context.Background()), InitializeContext(context.Background())}
 	ws := [2]*verifW{{}, {}}
+	var derived [2]context.Context
 	var count [2][6]int // per context: definitions emitted of s0,s1,k0,k1,h0,h1
 	var first [2][6]bool
 	steps := symParam("STEPS")
 	for i := 0; i < steps; i++ {
 		c := symChoose(2)
+		if derived[c] == nil && symBool("nonce"+string(rune('0'+i))) {
+			// a nonce set part-way down the tree (e.g. by one component for its subtree): the
+			// derived context and the original one are still the same rendering context
+			derived[c] = WithNonce(ctxs[c], "n")
+		}
+		use := ctxs[c]
+		if derived[c] != nil && symBool("sub"+string(rune('0'+i))) {
+			use = derived[c]
+		}
 		op := symChoose(6)
 		before := len(ws[c].b)
 		var err error
 		switch {
 		case op < 2:
-			err = RenderScriptItems(ctxs[c], ws[c], s[op], s[op])
+			err = RenderScriptItems(use, ws[c], s[op], s[op])
 		case op < 4:
-			err = RenderCSSItems(ctxs[c], ws[c], cl[op-2], KV(cl[op-2], true))
+			err = RenderCSSItems(use, ws[c], cl[op-2], KV(cl[op-2], true))
 		default:
-			err = hs[op-4].Once().Render(WithChildren(ctxs[c], Raw("<once"+string(rune('0'+op-4))+">")), ws[c])
+			err = hs[op-4].Once().Render(WithChildren(use, Raw("<once"+string(rune('0'+op-4))+">")), ws[c])
 		}
 		symAssert(err == nil, "no error")
 		emitted := string(ws[c].b[before:])
-		def := [6]string{"<script>F0;</script>", "<script>F1;</script>", "<style type=\"text/css\">.k0{}</style>", "<style type=\"text/css\">.k1{}</style>", "<once0>", "<once1>"}[op]
+		open := "<script>"
+		if GetNonce(use) != "" {
+			open = "<script nonce=\"n\">"
+		}
+		def := [6]string{open + "F0;</script>", open + "F1;</script>", "<style type=\"text/css\">.k0{}</style>", "<style type=\"text/css\">.k1{}</style>", "<once0>", "<once1>"}[op]
 		if !first[c][op] {
 			first[c][op] = true
 			symAssert(emitted == def, "history: the first use in a context emits the definition, exactly once")
